@@ -781,7 +781,7 @@ func (d *lifeDriver) one(sc Obj) (err error) {
 				arrived := make(chan struct{}, 1)
 				g := gate
 				d.hooks.SetAnswer(func(c LifeCall, req Obj) (int, []byte) {
-					if c.Name == name && c.Hook == "sync" {
+					if c.Name == name && (c.Hook == "sync" || c.Hook == "customize") {
 						select {
 						case arrived <- struct{}{}:
 						default:
